@@ -190,10 +190,13 @@ def feed_generator(stream: bytes, cuts, max_size: int):
     return res
 
 
-def case_streams(max_size, nmsgs):
+CORE = ('KA', 'UPD60', 'NOTIF', 'LEN18', 'LENMAX+1', 'NOTIF19', 'TYPE7', 'MARK7')
+
+
+def case_streams(max_size, nmsgs, core=False, exactly=None):
     a = alphabet(max_size)
-    names = list(a)
-    for n in range(1, nmsgs + 1):
+    names = [x for x in a if not core or x in CORE]
+    for n in (range(1, nmsgs + 1) if exactly is None else (exactly,)):
         for combo in itertools.product(names, repeat=n):
             # anything after the first faulty element is only there to check nothing after it is interpreted:
             # keep streams whose faults (if any) come last or second to last
@@ -206,9 +209,10 @@ def case_streams(max_size, nmsgs):
 
 
 def part_a_worker(args):
-    max_size, nmsgs, cuts, shard, nshards = args
+    max_size, nmsgs, cuts, shard, nshards = args[:5]
+    core, exactly = (args[5], args[6]) if len(args) > 5 else (False, None)
     out = {'exec': 0, 'viol': [], 'outcomes': set(), 'nontrivial': 0, 'samples': []}
-    for idx, (combo, parts) in enumerate(case_streams(max_size, nmsgs)):
+    for idx, (combo, parts) in enumerate(case_streams(max_size, nmsgs, core, exactly)):
         if idx % nshards != shard:
             continue
         stream = b''.join(parts)
@@ -339,8 +343,8 @@ def session_worker(args):
 def run(ctx: core.Ctx) -> None:
     thorough = ctx.tier != 'quick'
     nmsgs = 2
-    cuts = 2 if not thorough else 3
-    ctx.rule = (f'A: every stream of <= {nmsgs} messages over a {len(alphabet(4096))}-message alphabet (7 valid, 13 header faults) x every segmentation with <= {cuts} cuts at header/body-boundary offsets '
+    cuts = 2
+    ctx.rule = (f'A: every stream of <= {nmsgs} messages over a {len(alphabet(4096))}-message alphabet (7 valid, 16 header faults) x every segmentation with <= {cuts} cuts at header/body-boundary offsets ' + ('(thorough: also <= 4 cuts for single messages, <= 3 cuts for pairs and <= 1 cut for triples over an 8-message core alphabet) ' if thorough else '') +
                 f'+ uniform chunks 1..32 + coalesced, max size 4096 and 65535, through reader_async() and reader(); B: {len(SESSION_STREAMS)} streams x <= {2 if not thorough else 3} cuts x delay vectors over {{0, 0.15 s}} into an ESTABLISHED session (extended messages on both sides, on neither, and on one side only; our OPEN first or second); '
                 'non-trivial = segmented (at least one cut)')
     ctx.assumptions += ['reference framer vt/ref/wire.split_stream', 'a read returns at most one queued segment']
@@ -350,7 +354,11 @@ def run(ctx: core.Ctx) -> None:
         jobs = []
         for max_size in (4096, 65535):
             for sh in range(nshards):
-                jobs.append((max_size, nmsgs, cuts if max_size == 4096 else min(cuts, 2), sh, nshards))
+                jobs.append((max_size, nmsgs, cuts, sh, nshards))
+                if thorough and max_size == 4096:
+                    jobs.append((max_size, 1, 4, sh, nshards, False, 1))      # single messages, <= 4 cuts
+                    jobs.append((max_size, 2, 3, sh, nshards, True, 2))       # pairs over the core alphabet, <= 3 cuts
+                    jobs.append((max_size, 3, 1, sh, nshards, True, 3))       # triples over the core alphabet, <= 1 cut
         for out in pool.imap_unordered(part_a_worker, jobs):
             ctx.count('executions', out['exec'])
             ctx.count('transitions', out['exec'])
@@ -368,11 +376,12 @@ def run(ctx: core.Ctx) -> None:
             for ext in (False, True):
                 quick_big = name.startswith('UPDMAX') and not thorough and ext  # only unsegmented in the quick tier
                 ps = [alphabet(65535 if ext else 4096)[n] for n in parts]
-                offs = interesting_offsets(ps)
-                if not thorough:
-                    offs = [o for o in offs if o in (1, 16, 18, 19, 20) or o >= len(ps[0]) - 1][:14]
+                offs_all = interesting_offsets(ps)
+                offs_few = [o for o in offs_all if o in (1, 16, 18, 19, 20) or o >= len(ps[0]) - 1][:14]
                 ncuts = 2 if not thorough else 3
                 for k in range(0, (0 if quick_big else ncuts) + 1):
+                    # thorough: every pair of cut positions, and triples over the reduced set of positions the quick tier uses
+                    offs = offs_all if thorough and k <= 2 else offs_few
                     for c in itertools.combinations(offs, k):
                         for delays in itertools.product((0, 0.15), repeat=k):
                             bjobs.append((name, c, delays, ext, False))
